@@ -99,7 +99,8 @@ def hl(rng, which, expr):
 
 def interesting_value(rng):
     up = rng.choice([0, 1, 2, 0x3ffff, 0x40000, 0x7fffe, 0x7ffff, rng.getrandbits(19), rng.getrandbits(19), 15, 16, 31, 32, 0x7fff0, 0x7ffef, rng.randrange(0, 40)])
-    low = rng.choice(CRIT_LOW + [rng.getrandbits(13)])
+    # (also low parts that fit the RVC load / store / addi forms: the second instruction of a pair is a compression candidate)
+    low = rng.choice(CRIT_LOW + [rng.getrandbits(13)] + [4 * rng.randrange(0, 32), 4 * rng.randrange(0, 32), rng.randrange(-32, 32) & 0x1fff, 4 * rng.randrange(0, 64)])
     return ((up << 13) | low) & M32
 
 
